@@ -133,6 +133,48 @@ def check(ctx, model, style, loaded, obj, factory, indent, as_list=False):
         ctx.sample({"model_source": loaded.source[-1000:], "instance": repr(obj)[:400], "factory": factory, "json": dumped[:600]})
 
 
+def wrap_derived(obj, rng):
+    """Copy of obj in which some dataclass values of compound fields are wrapped as
+    DerivedElement(qname=<their choice>, value=v) without an xsi type - the documented way to say which
+    choice a value belongs to. -> (copy, number of wrapped values)"""
+    import copy
+    import dataclasses
+
+    from xsdata.formats.dataclass.context import XmlContext
+    from xsdata.formats.dataclass.models.generics import DerivedElement
+
+    xc = XmlContext()
+    obj = copy.deepcopy(obj)
+    n = [0]
+
+    def generic(o):
+        return type(o).__name__ in ("AnyElement", "DerivedElement")
+
+    def visit(o):
+        if not dataclasses.is_dataclass(o) or isinstance(o, type) or generic(o):
+            return
+        meta = xc.build(type(o))
+        compound = {v.name: v for v in meta.choices}
+        for f in dataclasses.fields(o):
+            val = getattr(o, f.name)
+            items = list(val) if isinstance(val, (list, tuple)) else [val]
+            new = []
+            for it in items:
+                visit(it)
+                var = compound.get(f.name)
+                if var is not None and dataclasses.is_dataclass(it) and not generic(it) and rng.random() < 0.6:
+                    ch = var.find_value_choice(it, True)
+                    if ch is not None and ch.qname and not ch.is_wildcard:
+                        it = DerivedElement(qname=ch.qname, value=it)
+                        n[0] += 1
+                new.append(it)
+            if f.name in compound:
+                object.__setattr__(o, f.name, type(val)(new) if isinstance(val, (list, tuple)) else new[0])
+
+    visit(obj)
+    return obj, n[0]
+
+
 def has_nan(x):
     if isinstance(x, float):
         return math.isnan(x)
@@ -169,5 +211,14 @@ def run_shard(ctx):
                 factory = rng.choice(["dict", "filter_none"])
                 ctx.feature(f"factory:{factory}")
                 check(ctx, case.model, case.style, case.loaded, obj, factory, rng.choice([None, 2]), as_list=rng.random() < 0.25)
+                if any(f.xml == "Elements" for c in case.model.classes for f in c.fields):
+                    try:
+                        obj2, n = wrap_derived(obj, rng)
+                    except Exception as e:  # noqa: BLE001
+                        ctx.inconc(f"wrap_derived failed: {type(e).__name__}: {e}")
+                        continue
+                    if n:
+                        ctx.feature("compound-value-as-derived-element-without-type")
+                        check(ctx, case.model, case.style, case.loaded, obj2, rng.choice(["dict", "filter_none"]), None)
         finally:
             case.close()
